@@ -173,6 +173,16 @@ func runC13(e *Env) {
 		}
 	}
 	for i, p := range rig.Probes {
+		// lifecycle order on every channel, client or accepted (C05's clause, checked here for the accept path)
+		if act := p.Of("active"); len(act) == 1 {
+			for _, rd := range p.Of("read") {
+				if rd.Seq < act[0].End {
+					e.Violate("active-before-reads", "channel", "channel %d: a read was delivered (@%d) before the active event completed (@%d)", i, rd.Seq, act[0].End)
+				}
+			}
+		} else if len(act) > 1 {
+			e.Violate("active-once", "channel", "channel %d: active delivered %d times", i, len(act))
+		}
 		a, in := p.Count("active"), p.Count("inactive")
 		if in > 1 || (a == 1 && in != 1) {
 			e.Violate("inactive-once", fmt.Sprintf("active=%d,inactive=%d", a, in), "channel %d: active delivered %d times, inactive %d times at quiescence after Shutdown", i, a, in)
